@@ -97,9 +97,11 @@ func c12Worker(args []string) int {
 		if ci%4 == 3 {
 			s.Maintainer = "" // deprecated but valid: deb and ipk print a notice and substitute a placeholder
 		}
-		if ci%4 == 0 {
-			// a payload file beyond one MiB (buffering strategies change with size)
-			nd := c.Tree.Add(&gen.Node{Rel: "src/one-mib-and-a-bit.bin", Kind: "file", Perm: 0o644, MTime: 1111111112, Size: 1<<20 + 4097, Seed: uint64(ci) + 77})
+		if ci%2 == 0 {
+			// a payload file beyond one MiB (buffering strategies change with size);
+			// compressible, so that the compressors do not dominate the run
+			nd := c.Tree.Add(&gen.Node{Rel: "src/one-mib-and-a-bit.bin", Kind: "file", Perm: 0o644, MTime: 1111111112,
+				Bytes: bytes.Repeat([]byte(fmt.Sprintf("one MiB and a bit, config %d, sixty-four byte line of text.....\n", ci)), (1<<20)/48)})
 			_ = c.Tree.Materialize(root)
 			s.Contents = append(s.Contents, &gen.Content{Src: filepath.Join(root, nd.Rel), Dst: "/opt/" + s.Name + "/one-mib-and-a-bit.bin"})
 		}
@@ -246,6 +248,31 @@ func c12Worker(args []string) int {
 					wg.Wait()
 				}
 			}
+			// (d) four goroutines on the SAME format, started together, format after
+			// format: whatever a packager shares between its own invocations is
+			// touched at the same time (first repetition only)
+			scenD := func() {
+				if rp != 0 {
+					return
+				}
+				for _, f := range formats {
+					f := f
+					var wg sync.WaitGroup
+					gate := make(chan struct{})
+					for g := 0; g < 4; g++ {
+						wg.Add(1)
+						go pkg("d:same-format-x4", rp, g, f, func() (*nfpm.Info, error) {
+							cfg, err := parseYAML(y, env)
+							if err != nil {
+								return nil, err
+							}
+							return infoFor(&cfg, f)
+						}, 0, &wg, gate)
+					}
+					close(gate)
+					wg.Wait()
+				}
+			}
 			// rotate the order so that each scenario is, for some configuration,
 			// the first concurrent use of that configuration's keys and sources; the
 			// rotation is shifted per child process, so that process-wide lazily
@@ -254,6 +281,7 @@ func c12Worker(args []string) int {
 			for _, sc := range order {
 				sc()
 			}
+			scenD()
 		}
 		if ci%4 != 2 && !baseline() {
 			return 2
@@ -339,7 +367,7 @@ func c12(run *ev.Run, tier string) {
 	if *flagCases > 0 {
 		ncfg = *flagCases
 	}
-	run.Rule = "a -race build of the harness runs, in a child process per GOMAXPROCS value, three scenarios per generated aliasing-rich configuration (file_info on dir/symlink/ghost entries, per-format overrides, every third config signed with passphrase-protected keys, zstd/xz/gzip compressors): (a) one parsed config, Get up front, five formats concurrently; (b) same with Get inside the goroutines; (c) 8 / 32 goroutines with independently parsed settings and any format incl. the same one; start offsets are jittered from the seed; the scenario order rotates per configuration and per child, and three configurations out of four take their sequential baseline only after the concurrent scenarios (cold start of process-wide state). Monitors: race-detector reports (log_path files, deduplicated by the innermost nfpm functions of both accesses), panics/fatal errors, errors that the sequential build does not have, and byte equality of every unsigned concurrent result with the sequential baseline. non-trivial = packaging that overlapped in time with another one; distinct = distinct sets of formats observed in flight together"
+	run.Rule = "a -race build of the harness runs, in a child process per GOMAXPROCS value, three scenarios per generated aliasing-rich configuration (file_info on dir/symlink/ghost entries, per-format overrides, every third config signed with passphrase-protected keys, zstd/xz/gzip compressors): (a) one parsed config, Get up front, five formats concurrently; (b) same with Get inside the goroutines; (c) 8 / 32 goroutines with independently parsed settings and any format incl. the same one; (d) four goroutines on the same format, format after format; start offsets are jittered from the seed; the scenario order rotates per configuration and per child, and three configurations out of four take their sequential baseline only after the concurrent scenarios (cold start of process-wide state). Monitors: race-detector reports (log_path files, deduplicated by the innermost nfpm functions of both accesses), panics/fatal errors, errors that the sequential build does not have, and byte equality of every unsigned concurrent result with the sequential baseline. non-trivial = packaging that overlapped in time with another one; distinct = distinct sets of formats observed in flight together"
 	if !raceEnabled {
 		run.Inconclusive("the harness was built without -race; run through bin/check.sh C12")
 		return
